@@ -115,3 +115,139 @@ class Summaries:
                                 changed = True
         self.W = W
         self.calls = calls
+
+
+# ------------------------------------------------------------------ effects incl. callees, return sets, guards
+def effects(mod, f, S):
+    """[(insn, atoms written in f's frame)] for every store, writing libc call and every call whose callee
+    (transitively) writes through its arguments or to globals"""
+    out = []
+    P = prov(mod, f)
+    for i, atoms, kind in write_sites(mod, f):
+        out.append((i, atoms))
+    for i, argatoms in S.calls.get(f.name, []):
+        c = i.callee
+        if c in mod.funcs:
+            src = S.W[c]
+        elif c in S.asm_writes:
+            src = S.asm_writes[c]
+        else:
+            src = {llir.UNK}
+        w = set()
+        for a in src:
+            w |= _subst(a, argatoms)
+        w = {a for a in w if not is_local(a)}
+        if w:
+            out.append((i, w))
+    return out
+
+
+_ret_memo = {}
+
+
+def ret_set(mod, fname, depth=0):
+    """set of integer constants a function may return; 'unk' if a returned value is not a constant / callee result"""
+    key = (id(mod), fname)
+    if key in _ret_memo:
+        return _ret_memo[key]
+    _ret_memo[key] = set()
+    f = mod.funcs.get(fname)
+    if f is None:
+        _ret_memo[key] = {'unk:' + fname}
+        return _ret_memo[key]
+    out = set()
+    P = prov(mod, f)
+
+    def val(v, seen):
+        if v in seen:
+            return set()
+        seen = seen | {v}
+        if re.match(r'^-?\d+$', v):
+            return {int(v)}
+        if v in P.pidx:
+            return {('param', P.pidx[v])}       # resolved at the call sites
+        i = f.defs.get(v)
+        if i is None:
+            return {'unk'}
+        if i.op == 'phi':
+            r = set()
+            for o in i.ops:
+                r |= val(o, seen)
+            return r
+        if i.op == 'select':
+            return val(i.ops[1], seen) | val(i.ops[2], seen)
+        if i.op == 'call' and i.callee in mod.funcs and depth < 8:
+            r = set()
+            for x in ret_set(mod, i.callee, depth + 1):
+                if isinstance(x, tuple) and x[0] == 'param':
+                    r |= val(i.args[x[1]][1], seen) if x[1] < len(i.args) else {'unk'}
+                else:
+                    r.add(x)
+            return r
+        if i.op in ('zext', 'sext', 'trunc', 'bitcast', 'freeze'):
+            return val(i.ops[0], seen)
+        return {'unk:%s' % i.op}
+    for i in f.all_insns():
+        if i.op == 'ret' and i.ops:
+            out |= val(i.ops[0], frozenset())
+    _ret_memo[key] = out
+    return out
+
+
+def blocks_reachable_without_edge(f, src, dst):
+    """blocks reachable from the entry when the CFG edge src->dst is removed"""
+    seen = set()
+    work = [f.entry()]
+    while work:
+        b = work.pop()
+        if b in seen:
+            continue
+        seen.add(b)
+        for s in f.blocks[b].succs:
+            if b == src and s == dst:
+                continue
+            work.append(s)
+    return seen
+
+
+def cond_branches(mod, f):
+    """[(block, br insn, icmp insn or None)] for every conditional branch"""
+    out = []
+    for b in f.order:
+        blk = f.blocks[b]
+        if not blk.insns:
+            continue
+        t = blk.insns[-1]
+        if t.op == 'br' and t.extra.get('cond'):
+            c = f.defs.get(t.extra['cond'])
+            out.append((b, t, c))
+    return out
+
+
+def returns_via(f, start):
+    """values returned on paths that start in block `start` and run to a ret without going through a phi choice made
+    elsewhere: returns the set of constants chosen by return-phi incoming edges reachable from start"""
+    vals = set()
+    seen = set()
+    work = [(start, None)]
+    while work:
+        b, pred = work.pop()
+        if (b, pred) in seen:
+            continue
+        seen.add((b, pred))
+        blk = f.blocks[b]
+        t = blk.insns[-1] if blk.insns else None
+        if t is not None and t.op == 'ret' and t.ops:
+            v = t.ops[0]
+            i = f.defs.get(v)
+            if re.match(r'^-?\d+$', v):
+                vals.add(int(v))
+            elif i is not None and i.op == 'phi' and i.block == b and pred is not None:
+                for val, pb in i.extra['incoming']:
+                    if pb == pred:
+                        vals.add(int(val) if re.match(r'^-?\d+$', val) else 'var')
+            else:
+                vals.add('var')
+        for s in blk.succs:
+            work.append((s, b))
+    return vals
